@@ -4,6 +4,7 @@
 //! The same sources are built twice: against the instrumented cosmwasm-std (symbolic exploration)
 //! and against the unpatched crate (`native`, concrete replay of solver models on the real build).
 mod addr;
+mod cfgmat;
 mod cfgops;
 mod hist;
 mod mig;
